@@ -177,6 +177,7 @@ class Engine:
         self.ext_consts = {}
         self.exec_eq_classes = set()
         self.field_hooks = {}
+        self.droppable_facts = {}  # id -> fact: generalised well-typedness facts (safe to drop when searching a counter-model)
         self.stats = {"feas_checks": 0, "paths": 0}
         self.exc_parent = dict(BUILTIN_EXC)
         for c in set(repo.classes.values()):
@@ -413,7 +414,7 @@ class Engine:
     def oblige(self, st, goal, name, **meta):
         ob = Obligation(name, st.hyps, goal, meta)
         ob.nfacts = len(st.facts)
-        ob.qfacts = [i for i, f in enumerate(st.facts) if self.has_quant(f)]
+        ob.qfacts = [i for i, f in enumerate(st.facts) if f.get_id() in self.droppable_facts]
         self.obligs.append(ob)
 
     def fresh_like(self, sv, name="h"):
@@ -643,7 +644,7 @@ class Engine:
             f.add(z3.Implies(V.is_obj(v), self.alive(st)[v]))
             inner = strip_opt(sv.ty)
             names = [inner.cls] if isinstance(inner, TObj) else [i.cls for i in inner.items if isinstance(i, TObj)]
-            if names and all(n in self.repo.classes for n in names):
+            if names and all((n in self.repo.classes or n in self.opaque_classes) for n in names):
                 # declared element / field types are assumed (well-typedness of inputs)
                 f.add(z3.Implies(V.is_obj(v), Or(*[self.instance_of(v, n) for n in names])))
         return st.with_facts(f), sv
